@@ -424,6 +424,17 @@ class Scheduler:
                     first = self._pick_initial()
                     if first in self._runnable():
                         target = first
+        elif k == 'preempt_unlocked':
+            # single pre-emption of the FIRST thread at its j-th source line executed while it holds no lock
+            is_ops = isinstance(tag[0], str) and (tag[0] == 'fs' or tag[0].startswith('lock.'))
+            if not is_ops and me == self._pick_initial() and not self.held.get(me) \
+                    and not self.__dict__.get('pu_done'):
+                self.pu_lines = self.__dict__.get('pu_lines', 0) + 1
+                if self.pu_lines == self.strategy['j']:
+                    self.pu_done = True
+                    r = [t for t in self._runnable() if t != me]
+                    if r:
+                        target = r[0]
         elif k == 'random':
             if self.rng.random() < self.strategy.get('p', 0.02):
                 r = [t for t in self._runnable() if t != me]
